@@ -1,5 +1,6 @@
 import MpVerif.C07.Lemmas
 import MpVerif.C07.LemmasRecomp
+import MpVerif.C07.LemmasPL
 set_option linter.unusedSimpArgs false
 /-!
 # C07 — property theorems
@@ -322,6 +323,37 @@ theorem C07_ideal_cond_bounds (res : Nat) (ctx : Ctx) (c : AlgCon) (e : Env) (ea
   have := (C07_within_cond_ideal res ctx c e ea er hea hr).mp h
   have h0 := rabs_nonneg (e.x res - e.raw res)
   grind
+
+/-! ## 6b. the piecewise-linear evaluator is the mathematical PL function of its points
+
+`ComputeValue(PLConstraint)` works on `PLPoints` (x strictly increasing).  For every argument the scan-and-interpolate
+code returns the value of the piecewise-linear function through the points: linear interpolation between consecutive
+points, and the first / last segment's line extended to the left / right. -/
+
+/-- between two consecutive points (end points included) -/
+theorem C07_pl_between (pre : List (Rat × Rat)) (a b : Rat × Rat) (post : List (Rat × Rat)) (x : Rat)
+    (hs : plSorted (pre ++ a :: b :: post)) (ha : a.1 ≤ x) (hb : x ≤ b.1) :
+    plValue (pre ++ a :: b :: post) x = a.2 + (b.2 - a.2) / (b.1 - a.1) * (x - a.1) :=
+  plValue_between pre a b post x hs ha hb
+
+/-- left of the first point: the first segment's line, extended (slope `(y1−y0)/(x1−x0)`, value decreasing by
+`slope·(x0−x)` — the sign the seeded change C07-1 flips) -/
+theorem C07_pl_left (a b : Rat × Rat) (post : List (Rat × Rat)) (x : Rat)
+    (hs : plSorted (a :: b :: post)) (hx : x < a.1) :
+    plValue (a :: b :: post) x = a.2 + (b.2 - a.2) / (b.1 - a.1) * (x - a.1) :=
+  plValue_left a b post x hs hx
+
+/-- right of the last point: the last segment's line, extended -/
+theorem C07_pl_right (pre : List (Rat × Rat)) (a b : Rat × Rat) (x : Rat)
+    (hs : plSorted (pre ++ [a, b])) (hx : b.1 < x) :
+    plValue (pre ++ [a, b]) x = b.2 + (b.2 - a.2) / (b.1 - a.1) * (x - b.1) :=
+  plValue_right pre a b x hs hx
+
+/-- `<<0,2; -1,1,3>> x` (points (−1,1),(0,0),(2,2),(3,5)): f(−5)=5, f(−1/2)=1/2, f(1)=1, f(5)=11 -/
+theorem C07_pl_example :
+    plValue [(-1, 1), (0, 0), (2, 2), (3, 5)] (-5) = 5 ∧ plValue [(-1, 1), (0, 0), (2, 2), (3, 5)] (-1/2) = 1/2 ∧
+    plValue [(-1, 1), (0, 0), (2, 2), (3, 5)] 1 = 1 ∧ plValue [(-1, 1), (0, 0), (2, 2), (3, 5)] 5 = 11 := by
+  decide +kernel
 
 /-! ## 7. where the real code fell / falls short of the property
 
